@@ -72,6 +72,8 @@ type vfwSched struct {
 	Cmds  []vfwCmd `json:"cmds"`
 	Fault vfwFault `json:"fault"`
 	Sync  bool     `json:"sync"`
+	Src   string   `json:"src"`     // coop | silent: what the source does when its Recv loop sees the half-close
+	Wm    string   `json:"payload"` // inc | flat: watermarks increase / repeat and go back (identity travels in the timestamp)
 }
 
 // state of one run, guarded by vfwHarness.mu
@@ -224,14 +226,20 @@ func (s *vfwSource) StreamWorkflowReplicationMessages(ss adminservice.AdminServi
 				h.note(r, map[string]interface{}{"ev": "SrcSawEnd", "how": vfwHow(err, self)}, nil)
 				return
 			}
-			id := int(req.GetSyncReplicationState().GetInclusiveLowWatermark())
+			id := int(req.GetSyncReplicationState().GetInclusiveLowWatermarkTime().GetNanos()) // the sequence number travels here
 			h.note(r, map[string]interface{}{"ev": "SrcGot", "id": id, "dg": vfwDigest(req)}, func() { r.srcGot++ })
 		}
 	}()
 	var ret error
 	select {
 	case ret = <-call.end: // SE command
-	case <-call.recvDone: // silent source: returns when its Recv loop ended (half-close or cancel)
+	case <-call.recvDone: // the Recv loop ended (half-close or cancel): a cooperative source returns
+		if r.sc.Src == "silent" { // a silent one carries on until its stream's context is done (or its SE command)
+			select {
+			case ret = <-call.end:
+			case <-ss.Context().Done():
+			}
+		}
 	}
 	call.mu.Lock()
 	call.returned = true
@@ -439,7 +447,17 @@ func (h *vfwHarness) census(after string) int {
 
 // ---------------------------------------------------------------- messages
 
-func vfwMsg(run, n int, unk bool) *adminservice.StreamWorkflowReplicationMessagesResponse {
+// vfwWm: the watermark the n-th message carries. "flat": repeats and steps back (heartbeats, duplicate acks, regressions).
+var vfwFlat = []int64{10, 10, 12, 11, 12, 12}
+
+func vfwWm(payload string, n int) int64 {
+	if payload == "flat" {
+		return vfwFlat[n%len(vfwFlat)]
+	}
+	return int64(n)
+}
+
+func vfwMsg(run, n int, unk bool, payload string) *adminservice.StreamWorkflowReplicationMessagesResponse {
 	if unk {
 		return &adminservice.StreamWorkflowReplicationMessagesResponse{} // nil attributes: unknown kind
 	}
@@ -448,16 +466,16 @@ func vfwMsg(run, n int, unk bool) *adminservice.StreamWorkflowReplicationMessage
 		tasks = append(tasks, &replicationv1.ReplicationTask{SourceTaskId: int64(1000*n + i), VisibilityTime: timestamppb.New(time.Unix(int64(1700000000+run), 0))})
 	}
 	return &adminservice.StreamWorkflowReplicationMessagesResponse{Attributes: &adminservice.StreamWorkflowReplicationMessagesResponse_Messages{
-		Messages: &replicationv1.WorkflowReplicationMessages{ReplicationTasks: tasks, ExclusiveHighWatermark: int64(n),
+		Messages: &replicationv1.WorkflowReplicationMessages{ReplicationTasks: tasks, ExclusiveHighWatermark: vfwWm(payload, n),
 			ExclusiveHighWatermarkTime: timestamppb.New(time.Unix(int64(1700000000+run), int64(n)))}}}
 }
 
-func vfwAck(run, n int, unk bool) *adminservice.StreamWorkflowReplicationMessagesRequest {
+func vfwAck(run, n int, unk bool, payload string) *adminservice.StreamWorkflowReplicationMessagesRequest {
 	if unk {
 		return &adminservice.StreamWorkflowReplicationMessagesRequest{}
 	}
 	return &adminservice.StreamWorkflowReplicationMessagesRequest{Attributes: &adminservice.StreamWorkflowReplicationMessagesRequest_SyncReplicationState{
-		SyncReplicationState: &replicationv1.SyncReplicationState{InclusiveLowWatermark: int64(n),
+		SyncReplicationState: &replicationv1.SyncReplicationState{InclusiveLowWatermark: vfwWm(payload, n),
 			InclusiveLowWatermarkTime: timestamppb.New(time.Unix(int64(1700000000+run), int64(n)))}}}
 }
 
@@ -502,7 +520,7 @@ func (h *vfwHarness) runSchedule(sc *vfwSched) {
 				h.note(r, map[string]interface{}{"ev": "IniSawEnd", "how": vfwHow(err, false)}, func() { r.iniEnded = true })
 				return
 			}
-			id := int(resp.GetMessages().GetExclusiveHighWatermark())
+			id := int(resp.GetMessages().GetExclusiveHighWatermarkTime().GetNanos())
 			h.note(r, map[string]interface{}{"ev": "IniGot", "id": id, "dg": vfwDigest(resp)}, func() { r.iniGot++ })
 		}
 	}()
@@ -549,7 +567,7 @@ func (h *vfwHarness) runSchedule(sc *vfwSched) {
 			}
 			nSrc++
 			unk := sc.Fault.K == "unkMsg" && sc.Fault.P == nSrc
-			m := vfwMsg(h.runNo, nSrc, unk)
+			m := vfwMsg(h.runNo, nSrc, unk, sc.Wm)
 			call.mu.Lock()
 			if call.returned {
 				call.mu.Unlock()
@@ -576,7 +594,7 @@ func (h *vfwHarness) runSchedule(sc *vfwSched) {
 		case "I":
 			nIni++
 			unk := sc.Fault.K == "unkAck" && sc.Fault.P == nIni
-			m := vfwAck(h.runNo, nIni, unk)
+			m := vfwAck(h.runNo, nIni, unk, sc.Wm)
 			h.note(r, map[string]interface{}{"ev": "IniSent", "id": nIni, "dg": vfwDigest(m), "unk": unk}, func() {
 				if unk {
 					r.ended = true
